@@ -33,7 +33,8 @@ def instances(build, tier, seed):
     # path, phi sources being the actual predecessor, call argument classes against the callee's prototype (harness/h_tv.c)
     import tvcorpus
     want = ('nestedcond', 'nestedcond-logic', 'nestedcond-both', 'cond-in-logic', 'cond-lvalue-ptr', 'logic', 'ternary', 'shortcircuit-side', 'forbreak', 'goto',
-            'call-basic', 'call-variadic', 'call-conv', 'call-fptr', 'call-cond', 'bitfield')
+            'call-basic', 'call-variadic', 'call-conv', 'call-fptr', 'call-cond', 'bitfield', 'vla', 'vla-cond-size', 'vla-logic-size', 'vla-after-return', 'whileloop', 'call-struct-ret',
+            'call-variadic-named', 'return-float', 'autoinit-desig')
     L += [i for i in tvcorpus.corpus_instances(tier, fam='ilfunc') if i.name.split('.', 1)[1] in want]
     L.append(parselib.parse_inst('jump.goto-undef', 'void f(void) { goto nowhere; }', True, 'jump', errmsg='use of undefined label', unwind=70))
     L.append(parselib.parse_inst('jump.label-dup', 'void f(void) { L: ; L: ; }', True, 'jump', errmsg='duplicate label', unwind=70))
